@@ -200,26 +200,26 @@ CHECKS = {
     },
     "C10": {
         "engine": "vp-multinode", "level": "exploration", "needs_server": ["release"],
-        "rule": "per run a real cluster: 3 or (1 run in 4) 5 sierradb server processes (release build of /repo's working tree, hooks on), loopback libp2p (mDNS off, peers dialled through the VerifDial hook), replication factor 3 (quorum 2) or, on half of the 5-node clusters, 5 (quorum 3), 8 partitions, 4 buckets, 256 KiB segments, heartbeat 300 ms / timeout 1.5 s, replication buffer 200 / 2 s, optional coordinator delays of 20/80 ms between local append and replication and of 30/120 ms between reaching quorum and recording the confirmation (hooks coord.after_local_append, coord.before_confirm). 4-8 client threads write EAPPEND (and 1 in 5 EMAPPEND transactions of 2-3 events) with unique explicit event ids to 6 streams on 3 hot partitions through random nodes for 12 s (thorough 25 s) while a nemesis picks a victim every 0.4-1.6 s: kill -9 and restart after 0.3-1.8 s (memory lost, disk kept, new alive_since => the coordinator of its partitions changes), SIGSTOP for 1.8-3.3 s then SIGCONT (the node is timed out by the others and wakes up with the old membership => two coordinators), or idle; on 5-node clusters half of the faults take two nodes down at once (kill or pause each) for 2.5-4 s, so that an rf-5 partition is left with exactly its quorum. Replies lost to a crash stay indeterminate. Then faults stop, all nodes are restarted/continued, the cluster settles, all processes are killed and every node's data directory is opened (a copy) with the library and every partition log dumped with its confirmation counts. Oracle C10: for every (partition, sequence) the records that carry a confirmation count >= quorum on any node are the same transaction and event on all of them; the confirmed prefixes (longest prefix of count >= quorum) of any two nodes agree event for event. non-trivial = distinct run in which a partition was coordinated by more than one node and some writes failed",
+        "rule": "per run a real cluster: 3 or (1 run in 3) 5 sierradb server processes (release build of /repo's working tree, hooks on), loopback libp2p (mDNS off, peers dialled through the VerifDial hook), replication factor 3 (quorum 2) or, on half of the 5-node clusters, 5 (quorum 3), 8 partitions, 4 buckets, 256 KiB segments, heartbeat 300 ms / timeout 1.5 s, replication buffer 200 / 2 s, optional coordinator delays of 20/80 ms between local append and replication and of 30/120 ms between reaching quorum and recording the confirmation (hooks coord.after_local_append, coord.before_confirm). 4-8 client threads write EAPPEND (and 1 in 5 EMAPPEND transactions of 2-3 events) with unique explicit event ids to 6 streams on 3 hot partitions through random nodes for 12 s (thorough 25 s) while a nemesis picks a victim every 0.4-1.6 s: kill -9 and restart after 0.3-1.8 s (40 %; memory lost, disk kept, new alive_since => the coordinator of its partitions changes), SIGSTOP (40 %, half of them aimed at the node that has been up longest = the current leader) for 1.8-3.3 s then SIGCONT (the node is timed out by the others and wakes up with the old membership => two coordinators), or idle; on 5-node clusters two thirds of the faults take two nodes down at once (kill or pause each) for 3.5-5 s, so that an rf-5 partition is left with exactly its quorum. Replies lost to a crash stay indeterminate. Then faults stop, all nodes are restarted/continued, the cluster settles, all processes are killed and every node's data directory is opened (a copy) with the library and every partition log dumped with its confirmation counts. Oracle C10: for every (partition, sequence) the records that carry a confirmation count >= quorum on any node are the same transaction and event on all of them; the confirmed prefixes (longest prefix of count >= quorum) of any two nodes agree event for event. non-trivial = distinct run in which a partition was coordinated by more than one node and some writes failed",
         "assumptions": A_COMMON + [
             "message delay/loss/duplication is whatever process crashes, pauses and libp2p produce between real processes on loopback; single replication messages are not reordered individually here (C12 does that in-process)",
             "cluster start-up is staggered and retried: a start-up race in TopologyManager::handle_ownership_response (a partial view overwriting a node's own replica entry) makes a cluster unwritable; that is an availability defect outside C10/C11 (DESIGN.md)",
             "a cluster that does not accept a probe write through every node after three start attempts is inconclusive",
         ],
-        "quick": {"shards": 6, "parallel": 6, "budget_s": 45, "watchdog_s": 600, "min_evals": 300, "min_nontrivial": 2,
+        "quick": {"shards": 8, "parallel": 8, "budget_s": 45, "watchdog_s": 600, "min_evals": 300, "min_nontrivial": 2,
                   "min_counters": {"clusters_formed": 4, "nemesis.kill9_restart": 4, "client_acks": 300, "replica_applied_events": 300}},
         "thorough": {"shards": 8, "parallel": 8, "budget_s": 600, "watchdog_s": 1800, "min_evals": 10000, "min_nontrivial": 15,
                      "min_counters": {"clusters_formed": 40, "nemesis.two_nodes_down": 10}},
     },
     "C11": {
         "engine": "vp-multinode", "level": "exploration", "needs_server": ["release"],
-        "rule": "per run a real cluster: 3 or (1 run in 4) 5 sierradb server processes (release build of /repo's working tree, hooks on), loopback libp2p (mDNS off, peers dialled through the VerifDial hook), replication factor 3 (quorum 2) or, on half of the 5-node clusters, 5 (quorum 3), 8 partitions, 4 buckets, 256 KiB segments, heartbeat 300 ms / timeout 1.5 s, replication buffer 200 / 2 s, optional coordinator delays of 20/80 ms between local append and replication and of 30/120 ms between reaching quorum and recording the confirmation (hooks coord.after_local_append, coord.before_confirm). 4-8 client threads write EAPPEND (and 1 in 5 EMAPPEND transactions of 2-3 events) with unique explicit event ids to 6 streams on 3 hot partitions through random nodes for 12 s (thorough 25 s) while a nemesis picks a victim every 0.4-1.6 s: kill -9 and restart after 0.3-1.8 s (memory lost, disk kept, new alive_since => the coordinator of its partitions changes), SIGSTOP for 1.8-3.3 s then SIGCONT (the node is timed out by the others and wakes up with the old membership => two coordinators), or idle; on 5-node clusters half of the faults take two nodes down at once (kill or pause each) for 2.5-4 s, so that an rf-5 partition is left with exactly its quorum. Replies lost to a crash stay indeterminate. Then faults stop, all nodes are restarted/continued, the cluster settles, all processes are killed and every node's data directory is opened (a copy) with the library and every partition log dumped with its confirmation counts. Oracle C11: every event of every write acknowledged to a client (reply map with partition id and sequence) is stored at exactly that sequence on >= quorum nodes; some node stores it with a confirmation count >= quorum, and the node that coordinated it (hook H7 'coordinated' event matched by transaction id) does; after the faults stop, EGET of a sample of 40 acknowledged events through every node never returns the event at another partition/sequence. non-trivial = distinct run in which a partition was coordinated by more than one node and some writes failed",
+        "rule": "per run a real cluster: 3 or (1 run in 3) 5 sierradb server processes (release build of /repo's working tree, hooks on), loopback libp2p (mDNS off, peers dialled through the VerifDial hook), replication factor 3 (quorum 2) or, on half of the 5-node clusters, 5 (quorum 3), 8 partitions, 4 buckets, 256 KiB segments, heartbeat 300 ms / timeout 1.5 s, replication buffer 200 / 2 s, optional coordinator delays of 20/80 ms between local append and replication and of 30/120 ms between reaching quorum and recording the confirmation (hooks coord.after_local_append, coord.before_confirm). 4-8 client threads write EAPPEND (and 1 in 5 EMAPPEND transactions of 2-3 events) with unique explicit event ids to 6 streams on 3 hot partitions through random nodes for 12 s (thorough 25 s) while a nemesis picks a victim every 0.4-1.6 s: kill -9 and restart after 0.3-1.8 s (40 %; memory lost, disk kept, new alive_since => the coordinator of its partitions changes), SIGSTOP (40 %, half of them aimed at the node that has been up longest = the current leader) for 1.8-3.3 s then SIGCONT (the node is timed out by the others and wakes up with the old membership => two coordinators), or idle; on 5-node clusters two thirds of the faults take two nodes down at once (kill or pause each) for 3.5-5 s, so that an rf-5 partition is left with exactly its quorum. Replies lost to a crash stay indeterminate. Then faults stop, all nodes are restarted/continued, the cluster settles, all processes are killed and every node's data directory is opened (a copy) with the library and every partition log dumped with its confirmation counts. Oracle C11: every event of every write acknowledged to a client (reply map with partition id and sequence) is stored at exactly that sequence on >= quorum nodes; some node stores it with a confirmation count >= quorum, and the node that coordinated it (hook H7 'coordinated' event matched by transaction id) does; after the faults stop, EGET of a sample of 40 acknowledged events through every node never returns the event at another partition/sequence. non-trivial = distinct run in which a partition was coordinated by more than one node and some writes failed",
         "assumptions": A_COMMON + [
             "same cluster, workload and nemesis as C10",
             "after the faults stop a lagging replica may still answer 'not found' for an acknowledged event (its catch-up or watermark is behind): eventual readability through every node is liveness the property does not state, so it is counted (egets_after_heal.not_found_on_lagging_node), not asserted",
             "a cluster that does not accept a probe write through every node after three start attempts is inconclusive",
         ],
-        "quick": {"shards": 6, "parallel": 6, "budget_s": 45, "watchdog_s": 600, "min_evals": 300, "min_nontrivial": 2,
+        "quick": {"shards": 8, "parallel": 8, "budget_s": 45, "watchdog_s": 600, "min_evals": 300, "min_nontrivial": 2,
                   "min_counters": {"clusters_formed": 4, "nemesis.kill9_restart": 4, "acks_matched_to_coordinator": 300, "acked_multi_event_transactions": 20}},
         "thorough": {"shards": 8, "parallel": 8, "budget_s": 600, "watchdog_s": 1800, "min_evals": 10000, "min_nontrivial": 15,
                      "min_counters": {"clusters_formed": 40, "nemesis.two_nodes_down": 10}},
